@@ -4,6 +4,7 @@
 // The parser decrypts in place, so the input is a private writable copy.
 // cryptoApi.h/pubkey_parse_file.c: "'key' ... must be freed ... if no error is returned" -> on failure
 // the caller frees nothing and nothing may stay allocated.
+#define C09_WORK_BOUND 3000000   /* SHA-1 finalisations per input; see c09_common.h (legit worst case with a sane iteration limit is 3x..6x below) */
 #define C09_HDR 1
 #define C09_PARTS 1
 #include "c09_common.h"
@@ -12,6 +13,7 @@ using namespace vf;
 using namespace c09;
 
 static void prop(Tape &t, Ctx &c) {
+    C09_WORK_RESET();
     uint8_t sel = t.u8();
     const char *pass = (sel & 1) ? kPasswords[(sel >> 1) & 3] : NULL;
     ExactBuf in(t.p + t.pos, t.n - t.pos);
@@ -38,5 +40,5 @@ static void prop(Tape &t, Ctx &c) {
     if (rc >= 0 || deep) c.nontrivial(fmt("pkcs8:%d:%d:%llx", rc >= 0, (int) (sel & 7), (unsigned long long) shape));
     if (rc >= 0) c.sample(fmt("psPkcs8ParsePrivBin len=%zu pass=%s rc=%d type=%d", in.n, pass ? pass : "(null)", rc, type));
 }
-VF_TARGET("C09.pkcs8", prop, 2048, 45)
+VF_TARGET("C09.pkcs8", prop, 2048, 65)
 namespace vf { void vf_global_init(int, char **) { psCryptoOpen(PSCRYPTO_CONFIG); } }
